@@ -66,7 +66,7 @@ Definition c_r_octets (sz : size) : creader value :=
         dc* bs <- c_read_n (Z.to_nat (size_lo sz)) c_read_byte; cret (VBytes bs) in
   if size_ext sz then
     dc* b <- c_read_bit;
-    if b then dc* _ <- c_r_align; dc* n <- c_read_len; dc* bs <- c_read_n (Z.to_nat n) c_read_byte; cret (VBytes bs)
+    if b then dc* _ <- c_r_align; dc* bs <- c_read_frag_auto c_read_byte; cret (VBytes bs)
     else normal
   else normal.
 
@@ -130,7 +130,7 @@ Section PCompositeCost.
           else dc* vs <- c_read_n (Z.to_nat (size_lo sz)) (decT elem); cret (VList vs) in
       if size_ext sz then
         dc* b <- c_read_bit;
-        if b then dc* _ <- c_r_align; dc* n <- c_read_len; dc* vs <- c_read_n (Z.to_nat n) (decT elem); cret (VList vs)
+        if b then dc* _ <- c_r_align; dc* vs <- c_read_frag_auto (decT elem); cret (VList vs)
         else normal
       else normal.
 
